@@ -46,6 +46,14 @@ CHECKS = {
    technique="TLA+ specs Glwe.tla / CoreTrace.tla + MC_C02 (linearity for every secret) + TLC-simulated random straight-line programs (Gen_C02) replayed on the real library and validated step by step",
    text="MC_C02 model-checks, for every secret in {-1,0,1}^N, that the phase commutes exactly with limb-wise add/sub/negate, X^k, (X^k-1) and with cutting to fewer limbs (and the one-unit cost of a cut for normalised digits). Gen_C02 is a state machine over register shapes whose actions are the public calls of api/operations.rs with the API's assertions as enabling conditions; TLC simulation emits random programs (depth 12, 4 registers) that the harness runs on 4 back-ends; CoreTrace validates every step: linear operations exactly on operands cut to the result's limb count, shifts and re-normalisation (also into another radix) column-wise within one unit of the result's last limb, in-place and accumulate forms included.",
    note="Rank-1 programs at N=8, radices 3 and 5; rank-0 plaintext operands, mixed ranks and GGSW rotate pending. The phase-level 'one unit per truncated operand' is implied by the exact / column-wise statements (see DESIGN.md on why the phase-level bound of a rounding step is key dependent)."),
+ "C03": dict(level=MC, design="§2 C03",
+   technique="TLA+ specs KeySwitch.tla (exact gadget product, key validity, worst-case bound) and KsFamily.tla (Image_op / Bound_op for automorphisms, trace, packing, LWE conversions, extraction); TLC-enumerated keygen->encrypt->operation behaviours replayed on 4 back-ends; KsTrace validates each from raw limbs and clear secrets",
+   text="Gen_C03 enumerates every gadget shape of the bounded scope (three-way radix mismatch, input limbs not a multiple of dsize, dnum smaller/equal/larger than needed, ranks in/out, result with fewer/more limbs, in-place forms) for the plain key-switch, and every operation parameter (all 16 signed Galois elements at N=8, every trace start level, every admitted slot subset and gap, every extraction index, LWE dimensions) for the rest of the family. The harness generates the keys with the library, encrypts, runs the operation on 4 back-ends x 2 fills and logs raw limbs plus the clear secrets (hook H5). TLC recomputes the key rows' phases (valid gadget encryption of the source secret within the configured bound), the exact integer gadget product from the logged key rows (plain key-switch, key <= 16 bits; equal up to the output rounding and the documented limb-dropping slack), and for every operation the decryption phase of the result against the exact ring image of the input phases within the worst-case gadget bound.",
+   note="N=8, radices 3/4, precisions <= 24 bits. Noise is judged against the worst-case bound implied by the truncated Gaussian (a sound upper bound: no false alarm), not against a variance estimate, so a defect that only inflates the noise by a small factor is not caught; gross errors (wrong row, limb, Galois element, sign, slot) are. GGLWE/GGSW key-switch and automorphism-key automorphism not covered here."),
+ "C04": dict(level=MC, design="§2 C04",
+   technique="TLA+ spec Xp.tla (GGSW validity cell by cell, exact gadget product over all rank+1 columns, phase(result) = m2*phase(input) within the worst-case bound, CMux selection, GGSW x GGSW cell-wise); TLC-enumerated behaviours replayed on 4 back-ends; KsTrace validates each from raw limbs and the clear secret",
+   text="Gen_C04 enumerates the gadget shapes of the bounded scope (input/GGSW/output radix mismatches, input limbs not a multiple of dsize, dnum smaller/equal/larger, GGSW precision below/above the GLWE's, ranks 1..2, dsize 1..3, fewer/more result limbs, in-place forms) x GGSW plaintexts {0, +-1, +-X^k for every k, small dense}, the three CMux forms for both selector bits, and GGSW x GGSW products with fewer/equal/more result rows. The library encrypts the GGSW and the GLWE, runs the operation on 4 back-ends x 2 fills; TLC recomputes every GGSW cell's phase (= m2*G_row*(1|s_col) within the configured bound), the exact integer gadget product from the logged cells, and the phase of the result against the exact negacyclic product m2*phase(input) within the worst-case gadget bound; CMux must decrypt to the selected branch.",
+   note="N=8, radices 3/4, precisions <= 24 bits; worst-case (not variance) noise bound. Not covered: GGSW row expansion from a GGLWE via the tensor key, GGLWE external product, GGSW key-switch/automorphism. CMux inside whole BDD circuits is C13/C15."),
 }
 NA_REASON = "check not built yet in this round (planned in DESIGN.md §2); not claimed"
 
@@ -55,7 +63,7 @@ man = {
  "hooks": {"guard": "poulpy_verif",
            "enable": "harness/.cargo/config.toml passes `--cfg poulpy_verif` to every /repo crate built as a path dependency of /verif/harness",
            "baseline_off_cmd": "cd /repo && cargo nextest run --workspace --no-fail-fast --tool-config-file pb:/w/lib/nextest.toml --profile pb --test-threads 8 --offline",
-           "source_commits": [], "add_only": True},
+           "source_commits": ["7b5a9d3", "ad4a404", "eebdf19"], "add_only": True},
  "engines": [{"name": "tla-tlc", "path": "bin/check", "serves_properties": sorted(CHECKS),
               "kind_free_text": "explicit TLA+ specification under spec/; TLC model-checks the spec (MC_*), enumerates behaviours replayed on the real code (Gen_*), and validates traces recorded from the real code (*Trace)"}],
  "checks": [], "not_applicable": [], "notes": "see DESIGN.md; known_findings.json lists fixed/known defects",
